@@ -74,7 +74,8 @@ def render(case, obs):
             i += 1
         t, r, k = case['victim']
         cmds.append(f'CAct (Spawn {cloader(t, r, None, i)})')
-        cmds += [f'CAct (Step {i})'] * (k - 1)
+        # a kill between write() and close(): the temporary file exists and is not complete - the model state before its write step
+        cmds += [f'CAct (Step {i})'] * (4 if k == 'close' else k - 1)
         cmds.append(f'CAct (Kill {i})')
         cmds.append(f'CCheck {cobs(obs["snap1"], obs["outcomes1"])}')
         i += 1
@@ -113,7 +114,7 @@ def evaluate(chk, cases, tag='cases'):
 
 
 ALPHABET = [['load', 0, 'v2023-10-09', None, False], ['load', 0, None, None, False], ['load', 1, None, None, False], ['load', 0, None, 'fetch', False],
-            ['load', 0, None, 'read', False], ['load', 0, None, ['write', 5], False], ['load', 0, 'v2023-01-27', None, True],
+            ['load', 0, None, 'read', False], ['load', 0, None, ['write', 5], False], ['load', 0, None, ['close', 3], False], ['load', 0, 'v2023-01-27', None, True],
             ['clear', 0], ['clear', 1], ['clear', 2], ['clear', None], ['resolve', 0, None]]
 
 
@@ -145,7 +146,7 @@ def gen(chk):
     for relative in (False, True):
         for before in ([], [['load', 0, R0[2]]], [['load', 0, R0[0]]], [['load', 1, RELEASES[1][0]]]):
             hit = before == [['load', 0, R0[2]]]
-            for k in range(1, 3 if hit else 8):
+            for k in list(range(1, 3 if hit else 8)) + ([] if hit else ['close']):
                 cases.append({'kind': 'kill', 'relative': relative, 'releases': RELEASES, 'before': before, 'victim': [0, R0[2], k]})
     # races
     all14 = list(interleavings(7, 7))
@@ -156,7 +157,7 @@ def gen(chk):
     for s in scheds:
         cases.append({'kind': 'race', 'relative': False, 'releases': RELEASES, 'loaders': [[0, R0[2], None], [0, R0[2], None]], 'schedule': s})
     for _ in range(400 if thorough else 80):
-        plans = [rng.choice([None, None, 'fetch', 'read', ['write', 5]]), rng.choice([None, None, 'read'])]
+        plans = [rng.choice([None, None, 'fetch', 'read', ['write', 5], ['close', 2]]), rng.choice([None, None, 'read'])]
         other = rng.random() < 0.3
         s = rng.choice(all14)
         cases.append({'kind': 'race', 'relative': rng.random() < 0.3, 'releases': RELEASES,
@@ -183,7 +184,7 @@ def run(chk):
             for op in c['ops']:
                 chk.count('op:' + op[0] + (':' + (op[3] if isinstance(op[3], str) else 'write') if op[0] == 'load' and op[3] else ''))
         if c['kind'] == 'kill':
-            chk.count('kill_at_boundary:%d' % c['victim'][2])
+            chk.count('kill_at_boundary:%s' % c['victim'][2])
         chk.note_case(c, nontrivial=True, sample_every=250)
     terms, obs, failing = evaluate(chk, cases)
     chk.evaluations = len(cases)
